@@ -238,7 +238,7 @@ def run(ctx):
     ctx.rule("R19.o1", "the result of opening an output stream is tested and the failure edge forces a non-zero exit status")
     ctx.rule("R19.o2", "after the last write to an output stream, on every path to a possibly-zero exit, the stream is closed/flushed and then tested for failure")
     ctx.rule("R19.o3", "every failure edge of a stream test reaches only non-zero exits")
-    ctx.rule("R19.b", "no output bypasses the stream's error state: nothing in the generators, the database or their I/O helpers writes through rdbuf()/sputn()/sputc(), whose failures do not set badbit and are therefore invisible to the tests of o2")
+    ctx.rule("R19.b", "no output bypasses the stream's error state: nothing in the generators, the database or their I/O helpers (dtoolbase/dtoolutil included: indent()) writes through rdbuf()/sputn()/sputc() or a std::ostreambuf_iterator, whose failures do not set badbit and are therefore invisible to the tests of o2")
     ctx.rule("R19.dead", "a stream whose open is unreachable stays unreachable (else it is subject to o1-o3)")
     total_streams = 0
     for fname, want in MAINS:
@@ -403,7 +403,7 @@ def no_streambuf_bypass(ctx):
     db = ctx.db
     n_fn = n_bad = 0
     for f in db.functions:
-        if not any(d in f.file for d in ("/interrogate/", "/interrogatedb/", "/cppparser/", "/dtoolutil/")):
+        if not any(d in f.file for d in ("/interrogate/", "/interrogatedb/", "/cppparser/", "/dtoolutil/", "/dtoolbase/")):
             continue
         n_fn += 1
         for c in f.walk():
@@ -411,6 +411,11 @@ def no_streambuf_bypass(ctx):
                 n_bad += 1
                 ctx.ob("R19.b", "%s|%s" % (f.name, callee_short(c)), False, f.loc(c),
                        "`%s` writes on the stream buffer: a failure returns a short count and leaves the ostream's state good" % show(c)[:60])
+            # an ostreambuf_iterator writes with sputc and records a failure only in ITSELF (failed()), not in the stream
+            if c.get("k") in ("ctor", "call", "temp") and "ostreambuf_iterator" in ((c.get("f") or "") + (c.get("t") or "") + (c.get("ty") or "")) and c.get("k") == "ctor":
+                n_bad += 1
+                ctx.ob("R19.b", "%s|ostreambuf_iterator" % f.name, False, f.loc(c),
+                       "`%s` writes through a stream-buffer iterator: a failed sputc is remembered by the iterator only, the ostream stays good" % show(c)[:60])
     ctx.ob("R19.b", "no-streambuf-writes", n_bad == 0, "src", "%d functions scanned, %d direct stream-buffer writes" % (n_fn, n_bad))
     ctx.floor("R19.b", "functions scanned", n_fn, 1500)
 
